@@ -144,12 +144,16 @@ impl TransactionManager {
     /// Begins a new transaction with the specified isolation level.
     pub fn begin_with_isolation(&self, isolation_level: IsolationLevel) -> TxId {
         let tx_id = TxId::new(self.next_tx_id.fetch_add(1, Ordering::Relaxed));
-        let epoch = EpochId::new(self.current_epoch.load(Ordering::Acquire));
+        // The start epoch is read and the transaction registered under one lock: a commit
+        // followed by gc() in between could otherwise drop the write set this transaction
+        // must still be checked against.
         #[cfg(grafeo_verif)]
         grafeo_common::verif::yield_point("txmgr.begin.between_epoch_and_insert");
+        let mut txns = self.transactions.write();
+        let epoch = EpochId::new(self.current_epoch.load(Ordering::Acquire));
 
         let info = TxInfo::new(epoch, isolation_level);
-        self.transactions.write().insert(tx_id, info);
+        txns.insert(tx_id, info);
         tx_id
     }
 
